@@ -6,7 +6,7 @@ From Coq Require Import ZArith List String Bool Lia Permutation.
 From Gigue Require Import Types Bits Isa IsaProofs Enc EncProofs GenTables Builder Samplers Generator GenLemmas
   Machine MachineLemmas ImageSem GenWF GenWFProps SliceLemmas GenWF2 GenWF3 GenWF4 GenWF2Props SplitProofs
   BodyExec BodyBridge GenWF5 FrameExec CodeMem SwitchExec GenWF6 GenWF7 GenWF8 GenWF9 Walk CallFrame MethodContract SaveRestore
-  TrampExec TrampsInv TrampStubs.
+  TrampExec TrampsInv TrampStubs Hits.
 Import ListNotations.
 Open Scope list_scope.
 Open Scope Z_scope.
@@ -321,13 +321,13 @@ Proof.
 Qed.
 
 (* one interpreter call, variant without trampolines: the stub, the element, and back *)
-Lemma step_elem_base e cur stub s' :
+Lemma step_elem_base e cur stub h s' :
   c_variant c = GBase ->
-  In e es -> int_stub_for c ms (jit_start_al c) e cur stub -> Inv s' -> pc s' = cur ->
+  In e es -> stub_hit c ms (jit_start_al c) e cur stub h -> Inv s' -> pc s' = cur ->
   code_at (mem s') cur (map generate stub) ->
   cur mod 4 = 0 -> code_lo L <= cur -> cur + 4 * zlen stub <= code_hi L ->
   (halt_at L < cur \/ cur + 4 * zlen stub <= halt_at L) ->
-  exists s3 h, hit_ok e h /\ run v L (elem_cost e h) s' = (Next s3, elem_cost e h) /\ pc s3 = cur + 4 * zlen stub /\ Inv s3.
+  hit_ok e h /\ exists s3, run v L (elem_cost e h) s' = (Next s3, elem_cost e h) /\ pc s3 = cur + 4 * zlen stub /\ Inv s3.
 Proof.
   intros Hbase He Hstub HI Hpc Hcode Hal Hlo Hhi Hh.
   pose proof (pd_regions c img L HP) as RO. pose proof (pd_code64 c img L HP) as H64. pose proof (ro_code L RO) as Hc0.
@@ -338,10 +338,11 @@ Proof.
   assert (Htb0 : tb = 0) by (unfold tb; rewrite Hbase; reflexivity).
   assert (Hts : tramp_steps = O) by (unfold tramp_steps; rewrite Hbase; reflexivity).
   pose proof elements_exist as EX. rewrite Forall_forall in EX. specialize (EX e He).
-  unfold int_stub_for in Hstub. rewrite Hbase in Hstub. cbn [uses_tramp bvariant_of] in Hstub.
+  unfold stub_hit in Hstub. rewrite Hbase in Hstub. cbn [uses_tramp bvariant_of] in Hstub.
   pose proof HI as HI'. destruct HI' as (I1 & I2 & I3 & I4 & I5 & I6 & I7 & I8).
   destruct e as [id|p].
   - (* a method *)
+    destruct Hstub as [-> Hstub].
     destruct EX as (m & Hid). cbn [elt_addr] in Hstub. fold ms in Hstub. rewrite Hid in Hstub. unfold method_base_call in Hstub.
     assert (Hm : In m ms) by (eapply nth_error_In; exact Hid).
     destruct (img_placed c img L HP m Hm) as (Ma & Mlo & Mhi & Mh).
@@ -377,7 +378,7 @@ Proof.
     { rewrite Cra. apply u64_small. lia. }
     { lia. }
     { clear - Hal. Z.div_mod_to_equations; lia. }
-    exists s3, 0. split; [reflexivity|]. cbn [elem_cost]. rewrite Hts, Nat.add_0_r.
+    split; [reflexivity|]. exists s3. cbn [elem_cost]. rewrite Hts, Nat.add_0_r.
     split; [rewrite (run_app v L 2 (msteps id) s' s1 R1), R3; reflexivity|]. split; [rewrite Pc3, Hzl; lia|].
     rewrite Hsp1 in Mf3.
     apply (inv_back s' s3 HI Il3 He3).
@@ -387,7 +388,7 @@ Proof.
     + congruence.
     + congruence.
   - (* a PIC *)
-    destruct EX as (Hcases & Hex). destruct Hstub as (h & Hh0 & Hstub). cbn [elt_addr] in Hstub. unfold pic_base_call in Hstub.
+    destruct EX as (Hcases & Hex). destruct Hstub as (Hh0 & Hstub). cbn [elt_addr] in Hstub. unfold pic_base_call in Hstub.
     pose proof (q_pics HQ) as QP. rewrite Forall_forall in QP. specialize (QP _ He). cbn in QP.
     destruct QP as (Pa & Plo & Phi & Ph & Pn & Prng).
     destruct (pic_case p h He Hh0) as (addrs & idk & cm & Haddrs & Ea & Eidk & Hcm & Hlen).
@@ -445,7 +446,7 @@ Proof.
     { rewrite Rg2 by (fold cmp; lia). rewrite Cra. apply u64_small. lia. }
     { lia. }
     { clear - Hal. Z.div_mod_to_equations; lia. }
-    exists s3, h. split; [exact Hh0|]. cbn [elem_cost]. fold k. rewrite (nth_error_nth _ _ O Eidk). rewrite Hts, Nat.add_0_r.
+    split; [exact Hh0|]. exists s3. cbn [elem_cost]. fold k. rewrite (nth_error_nth _ _ O Eidk). rewrite Hts, Nat.add_0_r.
     split; [|split; [rewrite Pc3, Hzl; lia|]].
     { rewrite (run_app v L 3 _ s' s1 R1). rewrite (run_app v L (2 * k + 3) (msteps idk) s1 s2 R2). rewrite R3. reflexivity. }
     rewrite Hsp2 in Mf3.
@@ -589,13 +590,13 @@ Proof.
   - congruence.
 Qed.
 
-Lemma step_elem_tramp e cur stub s' :
+Lemma step_elem_tramp e cur stub h s' :
   c_variant c = GTramp ->
-  In e es -> int_stub_for c ms (jit_start_al c) e cur stub -> Inv s' -> pc s' = cur ->
+  In e es -> stub_hit c ms (jit_start_al c) e cur stub h -> Inv s' -> pc s' = cur ->
   code_at (mem s') cur (map generate stub) ->
   cur mod 4 = 0 -> code_lo L <= cur -> cur + 4 * zlen stub <= code_hi L ->
   (halt_at L < cur \/ cur + 4 * zlen stub <= halt_at L) ->
-  exists s3 h, hit_ok e h /\ run v L (elem_cost e h) s' = (Next s3, elem_cost e h) /\ pc s3 = cur + 4 * zlen stub /\ Inv s3.
+  hit_ok e h /\ exists s3, run v L (elem_cost e h) s' = (Next s3, elem_cost e h) /\ pc s3 = cur + 4 * zlen stub /\ Inv s3.
 Proof.
   intros Hvar He Hstub HI Hpc Hcode Hal Hlo Hhi Hh.
   assert (Hu : uses_tramp (c_variant c) = true) by (rewrite Hvar; reflexivity).
@@ -612,11 +613,12 @@ Proof.
   assert (HTal : TA mod 4 = 0) by (unfold TA, jit_start_al, align; clear; Z.div_mod_to_equations; lia).
   pose proof (zlen_nonneg (List.concat (im_tramps img))) as Hzt.
   pose proof elements_exist as EX. rewrite Forall_forall in EX. specialize (EX e He).
-  unfold int_stub_for in Hstub. rewrite Hvar in Hstub. cbn [uses_tramp bvariant_of] in Hstub. fold TA in Hstub.
+  unfold stub_hit in Hstub. rewrite Hvar in Hstub. cbn [uses_tramp bvariant_of] in Hstub. fold TA in Hstub.
   pose proof HI as HI'. destruct HI' as (I1 & I2 & I3 & I4 & I5 & I6 & I7 & I8).
   destruct (tramps_code s' Hu I1) as (_ & _ & _ & _ & _ & _ & _ & _ & Zt). rewrite Zt in T2, T3.
   destruct e as [id|p].
   - (* a method *)
+    destruct Hstub as [-> Hstub].
     destruct EX as (m & Hid). cbn [elt_addr] in Hstub. fold ms in Hstub. rewrite Hid in Hstub. unfold interp_method_call in Hstub.
     assert (Hm : In m ms) by (eapply nth_error_In; exact Hid).
     destruct (img_placed c img L HP m Hm) as (Ma & Mlo & Mhi & Mh).
@@ -671,11 +673,11 @@ Proof.
       exists s3. split; [exact R3|]. split; [exact Pc3|]. split; [exact Il3|]. split; [exact He3|].
       split; [intros r Hr0 Hw _; apply Rg3; assumption|]. rewrite Sp2 in Mf3.
       split; [eapply (mem_frame_widen c L); [exact Mf3|apply F1|apply Z.le_refl]|]. split; assumption. }
-    exists s4, 0. split; [reflexivity|]. cbn [elem_cost]. rewrite Hts.
+    split; [reflexivity|]. exists s4. cbn [elem_cost]. rewrite Hts.
     replace (2 + msteps id + 10)%nat with (4 + (5 + (msteps id + 3)))%nat by lia.
     split; [rewrite (run_app v L 4 _ s' s1 R1), R4; reflexivity|]. split; [rewrite P4, Hzl; clear; lia|exact I4'].
   - (* a PIC *)
-    destruct EX as (Hcases & Hex). destruct Hstub as (h & Hh0 & Hstub). cbn [elt_addr] in Hstub. unfold interp_pic_call in Hstub.
+    destruct EX as (Hcases & Hex). destruct Hstub as (Hh0 & Hstub). cbn [elt_addr] in Hstub. unfold interp_pic_call in Hstub.
     pose proof (q_pics HQ) as QP. rewrite Forall_forall in QP. specialize (QP _ He). cbn in QP.
     destruct QP as (Pa & Plo & Phi & Ph & Pn & Prng).
     destruct (pic_case p h He Hh0) as (addrs & idk & cm & Haddrs & Ea & Eidk & Hcm & Hlen).
@@ -757,39 +759,40 @@ Proof.
       split.
       { intros a Ha Hd' Hrg. rewrite Mf3; [rewrite M2; reflexivity|exact Ha|exact Hd'|]. destruct F1 as (_ & _ & _ & F1). clear - Hrg F1. lia. }
       split; congruence. }
-    exists s4, h. split; [exact Hh0|]. cbn [elem_cost]. fold k. rewrite (nth_error_nth _ _ O Eidk). rewrite Hts.
+    split; [exact Hh0|]. exists s4. cbn [elem_cost]. fold k. rewrite (nth_error_nth _ _ O Eidk). rewrite Hts.
     replace (3 + (2 * k + 3 + msteps idk) + 10)%nat with (5 + (5 + ((2 * k + 3 + msteps idk) + 3)))%nat by lia.
     split; [rewrite (run_app v L 5 _ s' s1 R1), R4; reflexivity|]. split; [rewrite P4, Hzl; clear; lia|exact I4'].
 Qed.
 
 (* one interpreter call, both plain variants *)
-Lemma step_elem e cur stub s' :
-  In e es -> int_stub_for c ms (jit_start_al c) e cur stub -> Inv s' -> pc s' = cur ->
+Lemma step_elem e cur stub h s' :
+  In e es -> stub_hit c ms (jit_start_al c) e cur stub h -> Inv s' -> pc s' = cur ->
   code_at (mem s') cur (map generate stub) ->
   cur mod 4 = 0 -> code_lo L <= cur -> cur + 4 * zlen stub <= code_hi L ->
   (halt_at L < cur \/ cur + 4 * zlen stub <= halt_at L) ->
-  exists s3 h, hit_ok e h /\ run v L (elem_cost e h) s' = (Next s3, elem_cost e h) /\ pc s3 = cur + 4 * zlen stub /\ Inv s3.
+  hit_ok e h /\ exists s3, run v L (elem_cost e h) s' = (Next s3, elem_cost e h) /\ pc s3 = cur + 4 * zlen stub /\ Inv s3.
 Proof. destruct Hplain as [E|E]; [apply step_elem_base|apply step_elem_tramp]; exact E. Qed.
 
 (* all the interpreter calls, in their shuffled order *)
-Lemma chain_run : forall shuffled cur calls,
-  calls_chain c ms (jit_start_al c) shuffled cur calls -> (forall e, In e shuffled -> In e es) ->
+Lemma chain_run : forall shuffled cur calls hs,
+  chain_h c ms (jit_start_al c) shuffled cur calls hs -> (forall e, In e shuffled -> In e es) ->
   (forall s'', Inv s'' -> code_at (mem s'') cur (map generate calls)) ->
   cur mod 4 = 0 -> code_lo L <= cur -> cur + 4 * zlen calls <= code_hi L ->
   (halt_at L < cur \/ cur + 4 * zlen calls <= halt_at L) ->
   forall s', Inv s' -> pc s' = cur ->
-  exists s3 hs, Forall2 hit_ok shuffled hs /\
+  Forall2 hit_ok shuffled hs /\
+  exists s3,
     run v L (chain_cost (combine shuffled hs)) s' = (Next s3, chain_cost (combine shuffled hs)) /\
     pc s3 = cur + 4 * zlen calls /\ Inv s3.
 Proof.
-  intros shuffled cur calls H. induction H as [cur|e tl cur stub rest Hstub Hch IH]; intros Hin Hcode Hal Hlo Hhi Hh s' HI Hpc.
-  - exists s', []. split; [constructor|]. split; [reflexivity|]. split; [unfold zlen; cbn; lia|exact HI].
+  intros shuffled cur calls hs H. induction H as [cur|e tl cur stub rest h1 hs Hstub Hch IH]; intros Hin Hcode Hal Hlo Hhi Hh s' HI Hpc.
+  - split; [constructor|]. exists s'. split; [reflexivity|]. split; [unfold zlen; cbn; lia|exact HI].
   - rewrite zlen_app in Hhi, Hh. pose proof (zlen_nonneg stub) as Z1. pose proof (zlen_nonneg rest) as Z2.
     assert (Hc1 : code_at (mem s') cur (map generate stub)).
     { pose proof (Hcode s' HI) as Hc. rewrite map_app in Hc. intros j w Hj. apply Hc. apply nth_error_app_l. exact Hj. }
     assert (Hh1 : halt_at L < cur \/ cur + 4 * zlen stub <= halt_at L) by (destruct Hh; [left; lia|right; lia]).
     assert (Hhi1 : cur + 4 * zlen stub <= code_hi L) by lia.
-    destruct (step_elem e cur stub s' (Hin e (or_introl eq_refl)) Hstub HI Hpc Hc1 Hal Hlo Hhi1 Hh1) as (s1 & h1 & Hh1ok & R1 & P1 & I1).
+    destruct (step_elem e cur stub h1 s' (Hin e (or_introl eq_refl)) Hstub HI Hpc Hc1 Hal Hlo Hhi1 Hh1) as (Hh1ok & s1 & R1 & P1 & I1).
     assert (Hc2 : forall s'', Inv s'' -> code_at (mem s'') (cur + zlen stub * 4) (map generate rest)).
     { intros s'' HI''. pose proof (Hcode s'' HI'') as Hc. rewrite map_app in Hc.
       replace (cur + zlen stub * 4) with (cur + 4 * Z.of_nat (List.length (map generate stub))) by (rewrite map_length; unfold zlen; lia).
@@ -801,8 +804,8 @@ Proof.
     assert (Hhi2 : cur + zlen stub * 4 + 4 * zlen rest <= code_hi L) by lia.
     assert (Hh2 : halt_at L < cur + zlen stub * 4 \/ cur + zlen stub * 4 + 4 * zlen rest <= halt_at L) by (destruct Hh; [left; lia|right; lia]).
     assert (Hp2 : pc s1 = cur + zlen stub * 4) by (rewrite P1; lia).
-    destruct (IH (fun e' He' => Hin e' (or_intror He')) Hc2 Hal2 Hlo2 Hhi2 Hh2 s1 I1 Hp2) as (s3 & hs & Hhs & R3 & P3 & I3).
-    exists s3, (h1 :: hs). split; [constructor; assumption|]. cbn [combine chain_cost fold_right fst snd].
+    destruct (IH (fun e' He' => Hin e' (or_intror He')) Hc2 Hal2 Hlo2 Hhi2 Hh2 s1 I1 Hp2) as (Hhs & s3 & R3 & P3 & I3).
+    split; [constructor; assumption|]. exists s3. cbn [combine chain_cost fold_right fst snd].
     split; [rewrite (run_app v L (elem_cost e h1) _ s' s1 R1); fold (chain_cost (combine tl hs)); rewrite R3; reflexivity|].
     split; [rewrite P3, zlen_app; lia|exact I3].
 Qed.
@@ -822,16 +825,18 @@ Proof.
   cbn. repeat constructor; cbn; intros H; repeat (destruct H as [H|H]; [discriminate|]); exact H.
 Qed.
 
-(* THE THEOREM: the whole image of the two variants without isolation (with or without trampolines) returns *)
-Theorem plain_image_returns :
+(* the run, for a GIVEN decomposition of the interpreter loop and GIVEN hit cases (static data of the image) *)
+Lemma image_run_h pro epi shuffled calls hs :
+  base_prologue 10 0 true = OK pro -> base_epilogue 10 0 true = OK epi -> Permutation es shuffled ->
+  chain_h c ms (jit_start_al c) shuffled (int_start_al c + zlen pro * 4) calls hs -> ints = pro ++ calls ++ epi ->
   pc s0 = I0 -> image_loaded s0 -> env_ok v L dr s0 ->
-  exists s' eh, map fst eh = es /\ Forall (fun x => hit_ok (fst x) (snd x)) eh /\
-    run v L (image_steps eh) s0 = (Next s', image_steps eh) /\
+  Forall2 hit_ok shuffled hs /\
+  exists s', run v L (12 + (chain_cost (combine shuffled hs) + 13)) s0 = (Next s', (12 + (chain_cost (combine shuffled hs) + 13))%nat) /\
     pc s' = (u64 (rget s0 1 + 0) / 2) * 2 /\
     (forall r, 0 <= r -> wr c r = false -> ~ clob r -> rget s' r = rget s0 r) /\
     mem_frame c L s0 s' (S - Ntot) S /\ dom s' = dom s0 /\ cfi s' = cfi s0.
 Proof.
-  intros Hpc Hload He.
+  intros Hpro Hepi Hperm Hchain Hints Hpc Hload He.
   pose proof (pd_regions c img L HP) as RO. pose proof (pd_code64 c img L HP) as H64. pose proof (ro_code L RO) as Hc0.
   destruct (pd_stack c img L HP) as [Hsc Hsp0].
   destruct wrf as (W1 & W2 & W8 & Wd & D1 & D2 & D8 & D0).
@@ -839,8 +844,6 @@ Proof.
   pose proof Nmax_nonneg as Hn0. pose proof tb_range as [Htb _].
   destruct (q_int HQ) as (Qlo & Qhi & Qh).
   assert (Hal0 : I0 mod 4 = 0) by (unfold I0, int_start_al, align; Z.div_mod_to_equations; lia).
-  (* structure of the interpreter loop *)
-  destruct (interpreter_calls_each_element_once c script img Hsucc) as (pro & epi & shuffled & calls & Hpro & Hepi & Hperm & Hchain & Hints).
   destruct int_frames_eq as (p' & e' & Hp' & He' & Dp & De).
   rewrite Hpro in Hp'. rewrite Hepi in He'. inversion Hp'; inversion He'; subst p' e'. clear Hp' He'.
   assert (Lpro : List.length pro = 12%nat) by (apply decode_all_Forall2 in Dp; rewrite (Forall2_len' _ _ _ Dp); reflexivity).
@@ -898,7 +901,7 @@ Proof.
   (* ---------- the calls ---------- *)
   set (cur := I0 + zlen pro * 4) in *.
   assert (Ecur : cur = I0 + 48) by (unfold cur, zlen; rewrite Lpro; lia).
-  destruct (chain_run shuffled cur calls Hchain) with (s' := s2) as (s3 & hs & Hhs & R3 & P3 & I3); try assumption.
+  destruct (chain_run shuffled cur calls hs Hchain) with (s' := s2) as (Hhs & s3 & R3 & P3 & I3); try assumption.
   { intros e Hin. apply (Permutation_in e (Permutation_sym Hperm) Hin). }
   { intros s'' (( _ & Hl2 & _) & _). rewrite Ews in Hl2.
     replace cur with (I0 + 4 * Z.of_nat (List.length (map generate pro))) by (rewrite map_length, Lpro; lia).
@@ -939,14 +942,8 @@ Proof.
     - rewrite map_length, Lepi. unfold A3. lia.
     - rewrite map_length, Lepi. unfold A3. destruct Qh; [left; lia|right; lia].
     - apply plain_side. exact Hplain. }
-  assert (Hlsh : List.length shuffled = List.length hs) by (apply (Forall2_len' _ _ _ Hhs)).
-  assert (Hperm' : Permutation es (map fst (combine shuffled hs))) by (rewrite (map_fst_combine shuffled hs Hlsh); exact Hperm).
-  destruct (Permutation_map_inv fst _ Hperm') as (eh & Eeh & Peh).
-  exists s5, eh. split; [symmetry; exact Eeh|]. split.
-  { apply Forall_forall. intros x Hx. apply (Permutation_in x (Permutation_sym Peh)) in Hx.
-    destruct x as [e h]. cbn [fst snd]. exact (Forall2_combine_In _ _ _ _ _ Hhs Hx). }
-  split.
-  { unfold image_steps. rewrite <- (chain_cost_perm _ _ Peh). set (n := chain_cost (combine shuffled hs)) in *.
+  split; [exact Hhs|]. exists s5. split.
+  { set (n := chain_cost (combine shuffled hs)) in *.
     rewrite (run_app v L 12 (n + 13) s0 s2 Run1). rewrite (run_app v L n 13 s2 s3 R3). rewrite Run3. reflexivity. }
   assert (Hslotval : forall r o, In (r, o) int_slots -> rget s4 r = rget s0 r).
   { intros r o Hin. rewrite (Rl4 Hnd r o Hin). rewrite (J5 r o Hin). apply u64_small. apply (Hsaved r o Hin). }
@@ -964,4 +961,64 @@ Proof.
   split; [intros a Ha Hd' Hrg; unfold s5; cbn [set_pc mem]; rewrite mem_rset, M4; apply J6; assumption|].
   split; [unfold s5; cbn [set_pc dom]; rewrite dom_rset; congruence|unfold s5; cbn [set_pc cfi]; rewrite cfi_rset; congruence].
 Qed.
+
+(* THE THEOREM: the whole image of the two variants without isolation (with or without trampolines) returns *)
+Theorem plain_image_returns :
+  pc s0 = I0 -> image_loaded s0 -> env_ok v L dr s0 ->
+  exists s' eh, map fst eh = es /\ Forall (fun x => hit_ok (fst x) (snd x)) eh /\
+    run v L (image_steps eh) s0 = (Next s', image_steps eh) /\
+    pc s' = (u64 (rget s0 1 + 0) / 2) * 2 /\
+    (forall r, 0 <= r -> wr c r = false -> ~ clob r -> rget s' r = rget s0 r) /\
+    mem_frame c L s0 s' (S - Ntot) S /\ dom s' = dom s0 /\ cfi s' = cfi s0.
+Proof.
+  intros Hpc Hload He.
+  destruct (interpreter_calls_each_element_once c script img Hsucc) as (pro & epi & shuffled & calls & Hpro & Hepi & Hperm & Hchain & Hints).
+  destruct (chain_has_hits _ _ _ _ _ _ Hchain) as (hs & Hch).
+  destruct (image_run_h pro epi shuffled calls hs Hpro Hepi Hperm Hch Hints Hpc Hload He) as (Hhs & s' & R & Rest).
+  assert (Hlsh : List.length shuffled = List.length hs) by (apply (Forall2_len' _ _ _ Hhs)).
+  assert (Hperm' : Permutation es (map fst (combine shuffled hs))) by (rewrite (map_fst_combine shuffled hs Hlsh); exact Hperm).
+  destruct (Permutation_map_inv fst _ Hperm') as (eh & Eeh & Peh).
+  exists s', eh. split; [symmetry; exact Eeh|]. split.
+  { apply Forall_forall. intros x Hx. apply (Permutation_in x (Permutation_sym Peh)) in Hx.
+    destruct x as [e h]. cbn [fst snd]. exact (Forall2_combine_In _ _ _ _ _ Hhs Hx). }
+  split; [|exact Rest].
+  unfold image_steps. rewrite <- (chain_cost_perm _ _ Peh). exact R.
+Qed.
 End WI.
+
+(* the hit cases are a STATIC datum of the image: there is ONE list eh - fixed by the
+   configuration and the image, before any layout or initial state is chosen - such that
+   EVERY run from admissible entry conditions takes exactly image_steps c img eh steps *)
+Theorem plain_image_steps_static c script img :
+  successful c script img -> plain c -> (uses_tramp (c_variant c) = true -> c_data_reg c <> 6) ->
+  exists eh, map fst eh = im_elements img /\ Forall (fun x => hit_ok (fst x) (snd x)) eh /\
+  forall L, placed c img L -> placed2 c img L ->
+  forall s0,
+    rget s0 2 mod 8 = 0 -> Ntot c img <= rget s0 2 < W64 ->
+    stk_lo L <= rget s0 2 - Ntot c img -> rget s0 2 <= stk_hi L ->
+    (forall r o, In (r, o) int_slots -> 0 <= rget s0 r < W64) ->
+    pc s0 = int_start_al c -> image_loaded c img s0 -> env_ok (gv c) L (c_data_reg c) s0 ->
+    exists s', run (gv c) L (image_steps c img eh) s0 = (Next s', image_steps c img eh) /\
+      pc s' = (u64 (rget s0 1 + 0) / 2) * 2 /\
+      (forall r, 0 <= r -> wr c r = false -> ~ clob c r -> rget s' r = rget s0 r) /\
+      mem_frame c L s0 s' (rget s0 2 - Ntot c img) (rget s0 2) /\ dom s' = dom s0 /\ cfi s' = cfi s0.
+Proof.
+  intros Hs Hp H6.
+  destruct (interpreter_calls_each_element_once c script img Hs) as (pro & epi & shuffled & calls & Hpro & Hepi & Hperm & Hchain & Hints).
+  destruct (chain_has_hits _ _ _ _ _ _ Hchain) as (hs & Hch).
+  pose proof (chain_h_len _ _ _ _ _ _ _ Hch) as Hlsh.
+  assert (Hperm' : Permutation (im_elements img) (map fst (combine shuffled hs))) by (rewrite (map_fst_combine shuffled hs Hlsh); exact Hperm).
+  destruct (Permutation_map_inv fst _ Hperm') as (eh & Eeh & Peh).
+  (* hit_ok needs one run-independent argument: it is part of stub_hit *)
+  assert (Hok : Forall2 hit_ok shuffled hs).
+  { clear - Hch. induction Hch as [cur|e tl cur stub rest h hs Hs _ IH]; constructor; [|exact IH].
+    unfold stub_hit in Hs. destruct (uses_tramp (c_variant c)); destruct e as [id|p]; cbn [hit_ok]; tauto. }
+  exists eh. split; [symmetry; exact Eeh|]. split.
+  { apply Forall_forall. intros x Hx. apply (Permutation_in x (Permutation_sym Peh)) in Hx.
+    destruct x as [e h]. cbn [fst snd]. exact (Forall2_combine_In _ _ _ _ _ Hok Hx). }
+  intros L HP HQ s0 HSal HSr HSlo HShi Hsaved Hpc Hload He.
+  destruct (image_run_h c script img Hs Hp H6 L HP HQ s0 HSal HSr HSlo HShi Hsaved pro epi shuffled calls hs Hpro Hepi Hperm Hch Hints Hpc Hload He)
+    as (_ & s' & R & Rest).
+  exists s'. split; [|exact Rest].
+  unfold image_steps. rewrite <- (chain_cost_perm c img _ _ Peh). exact R.
+Qed.
